@@ -341,7 +341,8 @@ def cli_harness(ctx, cfg):
     fault = ['missing-result', 'unknown-command', 'undeclared-parameter', 'bad-list-element'][ctx.choice('fault', 4)]
     gap = ctx.choice('gap', 2)
     lines = [('' if lead_kind == 0 else '   ') for _ in range(lead)]
-    lines += ['# model', 'X = Node()']
+    exotic = ['', ' page\x0cbreak', ' sep\u2028arator', ' vt\x0b nel\x85'][ctx.choice('exotic_comment', 4)]
+    lines += ['# model' + exotic, 'X = Node()']
     lines += [''] * gap
     lines.append('Y = Node(')
     lines.append('    D = X,')
@@ -365,7 +366,7 @@ def cli_harness(ctx, cfg):
         want = len(lines)
     lines.append('# end')
     path = os.path.join(P.SCRATCH, 'c11-cli-%d.mpt' % os.getpid())
-    with open(path, 'w', newline='') as f:
+    with open(path, 'w', newline='', encoding='utf-8') as f:
         f.write(nl.join(lines) + nl)
     err, status = io.StringIO(), None
     old_err = sys.stderr
